@@ -13,7 +13,8 @@ def run(rep, kf, tier, seed):
                                  rb.body_from_data_contract(), rb.source_table_contract()],
                        "C16", tier, seed)
     import contracts.project as cproj
-    engine_b.discharge(rep, kf, [cproj.init_contract()], "C16", tier, seed)
+    import contracts.process_config as cpc
+    engine_b.discharge(rep, kf, [cproj.init_contract(), cpc.process_config_contract()], "C16", tier, seed)
     rep.obligations = [o for o in rep.obligations if "C16" in o.props or o.id.endswith("no-exception-escapes")]
     cd.discharge(rep, kf, "C16", tier, seed)
     import contracts.closure as cl
